@@ -40,11 +40,12 @@ Lemma vokb_ok : forall g rty v, vokb g rty v = true -> vok g rty v.
 Proof.
   intros g rty. induction v using aval_ind'; intros Hb; simpl in *; auto.
   - destruct rty; auto; discriminate.
-  - destruct rty; auto; try discriminate. apply String.eqb_eq; exact Hb.
+  - destruct rty; auto; try discriminate. apply andb_prop in Hb as [H1 H2]. apply String.eqb_eq in H1. split; [exact H1|].
+    apply negb_true_iff in H2. unfold is_leaf in H2. intros ->. rewrite String.eqb_refl in H2. discriminate.
   - destruct rty; auto; try discriminate. destruct (union_members g n) as [ms|]; [|discriminate].
     exists ms. split; [reflexivity | apply existsb_eqb_In; exact Hb].
   - induction H as [|x t Hx _ IH]; [exact I|]. simpl in Hb. apply andb_prop in Hb as [H1 H2]. split; [apply Hx; exact H1 | apply IH; exact H2].
-  - destruct rty; auto; discriminate.
+  - destruct rty; auto; try discriminate. unfold is_leaf in Hb. apply String.eqb_eq in Hb. exact Hb.
 Qed.
 
 Lemma calls_ok_world : forall g calls orgs, calls_ok g calls = true ->
@@ -79,7 +80,7 @@ Definition pick_total (pick : list string -> option string) : Prop := forall l, 
 
 Theorem fed_transparent : forall w g pick q flat,
   (forall l s, pick l = Some s -> In s l) -> pick_total pick ->
-  fed_ok g = true -> fed_ok2 g = true -> sel_ok g = true ->
+  fed_ok0 g = true -> plain_ok g = true -> fed_ok2 g = true -> sel_ok g = true ->
   world_ok w g -> (forall ty id f ak, scalars_ok (w_value w ty id f ak)) ->
   (forall ty id f ak owners, find_gfield g ty f = Some (RScalar, owners) -> sval (w_value w ty id f ak)) ->
   forallb qwf q = true ->
@@ -88,9 +89,9 @@ Theorem fed_transparent : forall w g pick q flat,
   exists a r, fed_exec w g pick false true q = Some a /\
               eval_ref w g true (2 * depth_list q + 4) "Query" 0%Z q = Some r /\ jeq a r.
 Proof.
-  intros w g pick q flat Hpick Hpt Hok Hok2 Hsel Hw Hsc Hsv Hq Hfl Hflat.
+  intros w g pick q flat Hpick Hpt Hok Hpl Hok2 Hsel Hw Hsc Hsv Hq Hfl Hflat.
   destruct (plan_root_total_flatten g pick true false _ q flat Hpick Hpt Hsel Hfl Hflat) as [p Hplan].
-  destruct (root_sem w g pick Hpick Hok Hok2 Hw Hsc _ flat p Hplan Hflat) as [L [Hex Hsim]].
+  destruct (root_sem w g pick Hpick Hok Hpl Hok2 Hw Hsc _ flat p Hplan Hflat) as [L [Hex Hsim]].
   assert (Hqs : Forall qwfP q) by (apply Forall_forall; intros x Hx; eapply forallb_forall in Hq; eauto).
   destruct (norm_sem w g Hw Hsv _ "Query" 0%Z q flat Hfl Hqs Hflat) as [r [Hr Hj]].
   exists (delete_key federation_field (JObj L)), r. split; [|split; [exact Hr|]].
@@ -108,16 +109,16 @@ Proof.
   destruct (flatten (2 * depth_list q + 4) false g (RObj "Query") (Some q)) as [[flat|]|] eqn:Hfl;
     try (rewrite andb_false_r in H; discriminate).
   apply andb_prop in H as [H H5]. apply andb_prop in H as [H H4]. apply andb_prop in H as [H H3].
-  apply andb_prop in H as [H Hs]. apply andb_prop in H as [H1 H2].
+  apply andb_prop in H as [H Hs]. apply andb_prop in H as [H H2]. apply andb_prop in H as [H1 Hp].
   destruct (calls_ok_world g calls orgs H3) as [Hw [Hsc Hsv]].
-  exact (fed_transparent _ g pick q flat Hpick Hpt H1 H2 Hs Hw Hsc Hsv H4 Hfl H5).
+  exact (fed_transparent _ g pick q flat Hpick Hpt H1 Hp H2 Hs Hw Hsc Hsv H4 Hfl H5).
 Qed.
 
 (** the answer does not depend on how the choice among several services that serve a field is resolved *)
 Theorem fed_choice_independent : forall w g pick1 pick2 q flat,
   (forall l s, pick1 l = Some s -> In s l) -> (forall l s, pick2 l = Some s -> In s l) ->
   pick_total pick1 -> pick_total pick2 ->
-  fed_ok g = true -> fed_ok2 g = true -> sel_ok g = true ->
+  fed_ok0 g = true -> plain_ok g = true -> fed_ok2 g = true -> sel_ok g = true ->
   world_ok w g -> (forall ty id f ak, scalars_ok (w_value w ty id f ak)) ->
   (forall ty id f ak owners, find_gfield g ty f = Some (RScalar, owners) -> sval (w_value w ty id f ak)) ->
   forallb qwf q = true ->
@@ -125,9 +126,9 @@ Theorem fed_choice_independent : forall w g pick1 pick2 q flat,
   flat_ok g "Query" flat = true ->
   exists a1 a2, fed_exec w g pick1 false true q = Some a1 /\ fed_exec w g pick2 false true q = Some a2 /\ jeq a1 a2.
 Proof.
-  intros w g pick1 pick2 q flat Hp1 Hp2 Ht1 Ht2 Hok Hok2 Hsel Hw Hsc Hsv Hq Hfl Hflat.
-  destruct (fed_transparent w g pick1 q flat Hp1 Ht1 Hok Hok2 Hsel Hw Hsc Hsv Hq Hfl Hflat) as [a1 [r1 [A1 [R1 J1]]]].
-  destruct (fed_transparent w g pick2 q flat Hp2 Ht2 Hok Hok2 Hsel Hw Hsc Hsv Hq Hfl Hflat) as [a2 [r2 [A2 [R2 J2]]]].
+  intros w g pick1 pick2 q flat Hp1 Hp2 Ht1 Ht2 Hok Hpl Hok2 Hsel Hw Hsc Hsv Hq Hfl Hflat.
+  destruct (fed_transparent w g pick1 q flat Hp1 Ht1 Hok Hpl Hok2 Hsel Hw Hsc Hsv Hq Hfl Hflat) as [a1 [r1 [A1 [R1 J1]]]].
+  destruct (fed_transparent w g pick2 q flat Hp2 Ht2 Hok Hpl Hok2 Hsel Hw Hsc Hsv Hq Hfl Hflat) as [a2 [r2 [A2 [R2 J2]]]].
   rewrite R1 in R2. inversion R2; subst r2.
   exists a1, a2. split; [exact A1 | split; [exact A2|]]. eapply jeq_trans; [exact J1 | apply jeq_sym; exact J2].
 Qed.
